@@ -38,7 +38,7 @@ CLAIMS = {
         "is the seeded one on the 32 bytes drawn (or Err) and ignores the rest of the generator. The Lean specification reuses the model's sampler / encoder transcriptions; it and the crate are compared on every run with a Python "
         "transcription of Algorithm 6 through both entry points (byte level) and at struct level, including seeds that hit rare sampler events (corpus).",
    note=TB + "checks/ref/mldsa.py (Algorithm 6) is the oracle for the unproved part.",
-   tech="Lean 4 proof of the RNG wrapper and seed split + differential execution against a FIPS 204 reference"),
+   tech="Lean 4 proof that keygen + serialisation equals Algorithm 6 with exact arithmetic mod q (NTT pipeline semantics, key round trips) + RNG wrapper theorems + byte-exact differential execution against a FIPS 204 reference"),
  'C06': dict(cat='proof', ref='DESIGN 5 C06',
    text="Lean theorems for arbitrary oracles: the formatted-message encoding is injective in (context, message) for pure mode and in (context, OID, digest) for pre-hash mode, pure and pre-hash encodings never coincide, "
         "the three generated OIDs are pairwise distinct and of equal length; hence two different interpretations (message, context, mode/PH) of a signed string hash different inputs tr||M' unless they exhibit an explicit "
